@@ -58,6 +58,8 @@ def run(ctx):
     emission_order(ctx, prods)
     pad_spec(ctx)
     routes(ctx, pl)
+    ctx.rule('C01.10', 'reduced-I/O reader: byte offset, length, reshape and header slices of read_line(i) for every i')
+    reduced_reader_algebra(ctx, 'C01.10')
     ctx.rule('C01.9', 'per-group real count = min(bs, n - g*bs) in all residue / position cases (every producer)')
     from .. import groupcount
     for pr in prods:
@@ -239,6 +241,88 @@ def fallback(ctx, prods):
     if n < 1:
         raise AnalysisError('the reduced-I/O reader is no longer passed to the plane filler')
     selftest_oracle(ctx)
+
+
+def reduced_reader_algebra(ctx, rule):
+    """The self-test of the reduced-I/O reader exercises line 0 only; the terms of read_line(i) that are multiplied by i
+    (and by the trace ordinal h) are decided here: offset = FILE_HEADER + i*n_xl*(4*n_samp + TRACE_HEADER), length =
+    n_xl*(4*n_samp + TRACE_HEADER), rows of n_samp + TRACE_HEADER/4 four-byte words with the first TRACE_HEADER/4
+    dropped, header h = bytes [h*(TRACE_HEADER + 4*n_samp), + TRACE_HEADER)."""
+    from ..capture import Frame
+    from ..algebra import A as At, C as Cc
+    P = ctx.P
+    rl = None
+    for f in P.functions.values():
+        if f.cls is not None and f.name == 'read_line' and 'seek' in U(f.node):
+            rl = f
+    if rl is None:
+        raise AnalysisError('read_line of the reduced-I/O reader not found')
+    mod = rl.module
+    fh = P.const_value(mod, 'SEGY_FILE_HEADER_BYTES')
+    th = P.const_value(mod, 'SEGY_TRACE_HEADER_BYTES')
+    if not isinstance(fh, int) or not isinstance(th, int):
+        raise AnalysisError('SEG-Y header size constants are not literal')
+    atoms = {'self.n_xl': 'NXL', 'self.n_samp': 'NS', 'i': 'i', 'h': 'h'}
+    fr = Frame(rl, atoms)
+    ev0 = fr.ev
+
+    def ev(e, depth=0):
+        if isinstance(e, (ast.Name, ast.Attribute)):
+            v = P.const_value(mod, U(e))
+            if isinstance(v, int) and not isinstance(v, bool):
+                return Cc(v)
+        if isinstance(e, ast.BinOp):
+            l, r = ev(e.left, depth + 1), ev(e.right, depth + 1)
+            if l is None or r is None:
+                return None
+            return l + r if isinstance(e.op, ast.Add) else l - r if isinstance(e.op, ast.Sub) else l * r if isinstance(e.op, ast.Mult) else None
+        return ev0(e, depth)
+    rec = At('NXL') * (4 * At('NS') + th)
+    seeks = [c for c in ast.walk(rl.node) if isinstance(c, ast.Call) and isinstance(c.func, ast.Attribute) and c.func.attr == 'seek']
+    reads = [c for c in ast.walk(rl.node) if isinstance(c, ast.Call) and isinstance(c.func, ast.Attribute) and c.func.attr == 'read']
+    if len(seeks) != 1 or len(reads) != 1:
+        raise AnalysisError('%s: expected one seek and one read' % rl.qualname)
+    off, ln = ev(seeks[0].args[0]), ev(reads[0].args[0])
+    if off is None or ln is None:
+        raise AnalysisError('%s: offset / length do not normalise' % rl.qualname)
+    if off == Cc(fh) + At('i') * rec:
+        ctx.ok(rule, rl, seeks[0], 'offset = file header + i * n_xl * (4*n_samp + trace header)')
+    else:
+        ctx.fail(rule, rl, seeks[0], 'read_line(i) seeks to %r, an inline of n_xl traces starts at %r: lines after the first '
+                 '(never exercised by the self-test) are read from the wrong place' % (off, Cc(fh) + At('i') * rec))
+    if ln == rec:
+        ctx.ok(rule, rl, reads[0], 'length = n_xl * (4*n_samp + trace header)')
+    else:
+        ctx.fail(rule, rl, reads[0], 'read_line reads %r bytes, an inline is %r bytes' % (ln, rec))
+    # reshape((n_xl, n_samp + th/4))[:, th/4:]
+    rs = [c for c in ast.walk(rl.node) if isinstance(c, ast.Call) and isinstance(c.func, ast.Attribute) and c.func.attr == 'reshape']
+    for c in rs:
+        shp = c.args[0] if c.args else None
+        if isinstance(shp, ast.Tuple) and len(shp.elts) == 2:
+            a0, a1 = ev(shp.elts[0]), ev(shp.elts[1])
+            sub = parent(c)
+            cut = U(sub.slice.elts[1].lower) if isinstance(sub, ast.Subscript) and isinstance(sub.slice, ast.Tuple) and \
+                len(sub.slice.elts) == 2 and isinstance(sub.slice.elts[1], ast.Slice) and sub.slice.elts[1].lower is not None else None
+            if a0 == At('NXL') and a1 == At('NS') + th // 4 and cut == str(th // 4):
+                ctx.ok(rule, rl, c, 'rows of n_samp + %d words, the first %d (trace header) dropped' % (th // 4, th // 4))
+            else:
+                ctx.fail(rule, rl, enclosing_stmt(c), 'the inline is reshaped (%r, %r) and cut at column %s; a trace is %d header words '
+                         'followed by n_samp samples' % (a0, a1, cut, th // 4))
+    # header slices
+    n_h = 0
+    for sub in ast.walk(rl.node):
+        if isinstance(sub, ast.Subscript) and isinstance(sub.slice, ast.Slice) and U(sub.value) == 'buf':
+            lo, hi = ev(sub.slice.lower), ev(sub.slice.upper)
+            if lo is None or hi is None:
+                raise AnalysisError('%s: header slice does not normalise' % rl.qualname)
+            n_h += 1
+            if lo == At('h') * (4 * At('NS') + th) and hi - lo == Cc(th):
+                ctx.ok(rule, rl, sub, 'header h = [h*(trace header + 4*n_samp), + trace header)')
+            else:
+                ctx.fail(rule, rl, enclosing_stmt(sub), 'trace header h is taken from [%r, %r): traces after the first get the bytes '
+                         'of samples or of another header' % (lo, hi))
+    if not rs or n_h < 1:
+        raise AnalysisError('%s: reshape / header slice not found' % rl.qualname)
 
 
 def selftest_oracle(ctx):
